@@ -58,6 +58,7 @@ type Spec struct {
 	ValidateN  int               `json:"validate_n"`
 	Solver     string            `json:"solver"`
 	OneShotS   int               `json:"oneshot_s"`
+	ExtraPkgs  []string          `json:"extra_pkgs"` // further harness packages (for replacement targets)
 	Vfs        string            `json:"vfs"` // harness package (rel dir) that gets the shared file-system model and owns the os.* replacements
 }
 
@@ -750,6 +751,12 @@ func runCheck(specPath, tier, only string, workers int, noNative, trace bool) in
 	}
 	if len(hs) == 0 {
 		fatal2("no harness selected")
+	}
+	for _, p := range spec.ExtraPkgs {
+		if !relSet[p] {
+			relSet[p] = true
+			rels = append(rels, p)
+		}
 	}
 	if onlyRe == nil {
 		if old, _ := filepath.Glob(filepath.Join(verifDir, "replays", spec.Property+"-*.json")); old != nil {
